@@ -244,6 +244,20 @@ class Gen:
             out = b.op("mul", [out, cur], self.shape(cur))
         return out
 
+    def towers(self, cur: str) -> str:
+        """Two residual blocks on parallel branches (neither is an ancestor of the other),
+        joined by a product or a plain sum."""
+        r, b = self.r, self.b
+        ta = self.linear(cur, self.D(cur)) if r.random() < 0.5 else self.unary(cur)
+        tb = self.linear(cur, self.D(cur))
+        ra = self.residual(ta)
+        rb = self.residual(tb)
+        if r.random() < 0.5:
+            return b.op("mul", [ra, rb], self.shape(cur))
+        out = b.op("add", [ra, rb], self.shape(cur))
+        self.fresh.add(out)
+        return out
+
     def intmask(self, cur: str) -> str:
         """Integer / bool intermediates: a mask and a where() (non-float nodes must never be
         instrumented), and sometimes an argmax kept as an extra integer output."""
@@ -333,6 +347,8 @@ class Gen:
                      "reshape", "plain_add", "conv", "helper"]
             if self.vocab == "track":
                 kinds += ["fanout", "fanout", "intmask"]
+            if self.vocab in ("unitscale", "track"):
+                kinds += ["towers"]
             steps.append(r.choice(kinds))
         for _ in range(want_res):
             steps.insert(r.randrange(len(steps) + 1), "residual")
@@ -368,6 +384,8 @@ class Gen:
                 cur = self.helper(cur)
             elif s == "residual":
                 cur = self.residual(cur)
+            elif s == "towers":
+                cur = self.towers(cur) if self.nres < 4 else self.unary(cur)
             elif s == "fanout":
                 cur = self.fanout(cur)
             elif s == "intmask":
